@@ -311,6 +311,90 @@ def check_queries(m, shape, cards, types=None, fcards=None) -> bool:
     return ok
 
 
+def _append_at_last(shape):
+    """shape with one more single-child relation under the last feature of the preorder."""
+    if not shape:
+        return ((),),
+    last_rel = shape[-1]
+    return shape[:-1] + (last_rel[:-1] + (_append_at_last(last_rel[-1]),),)
+
+
+def queries_after_edit(shape, cards, kind) -> bool:
+    """All queries, then an edit of the same model object in place, then all queries again against the tree as it is
+    now (an index or cache filled by the first round must not survive the edit)."""
+    m = R.build(shape, cards)
+    if not check_queries(m, shape, cards):
+        return False
+    n = R.n_features(shape)
+    rels = R.relations_of(shape)
+    feats = [m.root]
+
+    def walk(f):
+        for r in f.relations:
+            for c in r.children:
+                feats.append(c)
+                walk(c)
+    walk(m.root)
+    if kind == 0:        # drop the last relation of the root (with its subtree)
+        m.root.relations.pop()
+        shape2 = shape[:-1]
+        cards2 = list(cards[:len(R.relations_of(shape2))])
+        gone = feats[R.n_features(shape2):]
+    elif kind == 1:      # rename the last feature in place
+        old = feats[-1].name
+        feats[-1].name = 'Zq7'
+        if m.get_feature_by_name(old) is not None or m.get_feature_by_name('Zq7') is not feats[-1]:
+            return False
+        shape2, cards2, gone = shape, list(cards), []
+    elif kind == 2:      # the model gets another tree over the same names
+        shape2 = R.shapes(n, n)[-1] if R.shapes(n, n)[-1] != shape else R.shapes(n, n)[0]
+        cards2 = R.default_cards(shape2)
+        m.root = R.build(shape2, cards2).root
+        gone = feats
+    else:                # a new optional child under the last feature
+        feats[-1].add_relation(Relation(feats[-1], [Feature('Zq8')], 0, 1))
+        shape2 = _append_at_last(shape)
+        cards2 = list(cards) + [(0, 1)]
+        gone = []
+    if not check_queries(m, shape2, cards2):
+        return False
+    listed = m.get_features()
+    for g in gone:
+        if any(x is g for x in listed):
+            return False
+        if m.get_feature_by_name(g.name) is g:
+            return False      # a feature that is no longer in the tree must not be found by name
+    return True
+
+
+def replay_edit_queries(shape, cards, kind):
+    shape = _totuple(shape)
+    cards = [tuple(c) for c in cards]
+    try:
+        ok = queries_after_edit(shape, cards, kind)
+    except Exception as exc:
+        return ['queries after an in-place edit raise %s: %s' % (type(exc).__name__, exc)]
+    return [] if ok else ['after an in-place edit (%s) the queries no longer describe the tree: shape %s cards %r'
+                          % (['last relation of the root dropped', 'last feature renamed', 'root replaced by another tree over the same names', 'child added under the last feature'][kind], R.shape_str(shape), cards)]
+
+
+def batch_edit_queries(max_n):
+    res = {'instances': 0, 'nontrivial': 0, 'violations': [], 'native_runs': 0}
+    for shape in R.shapes(max_n, 2):
+        for cards in R.all_cards(shape, allow_zero_max=False):
+            for kind in range(4):
+                res['instances'] += 1
+                res['native_runs'] += 1
+                res['nontrivial'] += 1
+                bad = replay_edit_queries(shape, cards, kind)
+                if bad:
+                    res['violations'].append({'label': 'queries-after-edit', 'detail': bad[0], 'replay_func': 'replay_edit_queries', 'replay_args': [shape, cards, kind]})
+                    if len(res['violations']) >= 4:
+                        return res
+    res['sample'] = {'edits': 'drop relation / rename / replace root / add child, after a first round of queries'}
+    return res
+
+
 def queries_typed(shape, cards, pos, tcode, fc) -> bool:
     n = R.n_features(shape)
     types = [TYPES[(i + 1) % 4] for i in range(n)]
@@ -453,6 +537,16 @@ def conditions(tier, seed):
         validate=[(1, 1, [0]), (0, 1, [0, 1]), (1, 3, [0, 1, 2]), (2, 3, [0, 1, 2, 3]), (0, 0, [0, 1])]))
     rnd = random.Random(seed)
     from .common import indexed_shapes
+    from .common import cards_params as _cp
+    for si, shape in indexed_shapes(N, 2):
+        if not R.relations_of(shape):
+            continue
+        cp, cpre, cexpr = _cp(shape)
+        dc = tuple(x for c in R.default_cards(shape) for x in c)
+        conds.append(Cond(name='c03_edit_%d' % si, imports='from fmverif.props import c03 as P\nSHAPE_%d = %r\n' % (si, shape), params=cp + ', kind: int',
+                          pre=cpre + ['0 <= kind < 4'], body='P.queries_after_edit(SHAPE_%d, %s, kind)' % (si, cexpr), timeout=(60 if tier == 'quick' else 200),
+                          aspect='all queries, an in-place edit (drop relation / rename / replace root / add child), all queries again against the current tree',
+                          sample={'shape': R.shape_str(shape), 'symbolic': 'all (min,max), the kind of edit'}, validate=[dc + (0,), dc + (1,), dc + (2,), dc + (3,)]))
     for si, shape in indexed_shapes(N):
         rels = R.relations_of(shape)
         n = R.n_features(shape)
@@ -490,7 +584,7 @@ def conditions(tier, seed):
 def batches(tier, seed):
     N = 4 if tier == 'quick' else 5
     return [('batch_e3', []), ('batch_ctc_listings', [seed, 150 if tier == 'quick' else 1500]),
-            ('batch_native_grid', [N])]
+            ('batch_native_grid', [N]), ('batch_edit_queries', [N])]
 
 
 WITNESSES = {'relation-0-0-single-child': witness_rel00}
